@@ -41,3 +41,7 @@ CHECKS["C14"] = ("property-based testing (rapid): round-trip identities over eve
   "Keys from a committed table with 1..3 leading zero bytes in d/x/y (re-verified with the reference at load) plus small/near-n/uniform d through PKCS#8 PEM/DER (with/without password), public PEM/DER, PKIX, hex (with/without 04, odd digit counts), compressed point; (r,s) and ciphertext ASN.1 encodings incl. short C1 coordinates; wrong passwords (one bit, case, length +-1, nil vs empty) must error; X509KeyPair/LoadX509KeyPair/GMX509KeyPairs(Single)/LoadGMX509KeyPair(s) with matching, other-same-type and other-type keys for SM2, RSA, ECDSA certificates. Exploration.",
   "Trusts ref/rsm2, ref/rder and crypto/x509 (to mint RSA/ECDSA certificates). Passwords differing only by trailing NUL bytes are the same HMAC key and are not counted as wrong. GM two-pair loaders with non-SM2 certificates: unspecified.",
   "DESIGN.md §5 C14")
+CHECKS["C09"] = ("property-based testing (rapid): template generator over the documented fields x signer family x algorithm; round-trip field comparison, independent signature verification on raw TBS bytes, single-byte DER mutants with a fail-closed relation",
+  "Certificates, CSRs, CRLs and revocation lists created for SM2/RSA-2048/ECDSA P-256/P-384 signers with default, own-family and mismatching algorithms; parsed fields compared one by one with the template under stated normalisations (UTC seconds, MaxPathLen -1, ExtraExtensions override, IPv4 in 4 bytes); verification under the issuer by the library and independently (ref/rsm2 on ZA||TBS, crypto/rsa, crypto/ecdsa) and failure under unrelated keys; each sampled single-byte change must give parse error, verification failure, or leave TBS and signature byte-identical. Exploration.",
+  "Trusts ref/rsm2, ref/rder, crypto/rsa, crypto/ecdsa, encoding/asn1 + crypto/x509/pkix for name encoding. Mismatching algorithm families: only no-panic. Criticality of name constraints is compared on the encoded extension.",
+  "DESIGN.md §5 C09")
